@@ -258,6 +258,31 @@ def build_model(engine):
     return True, exe
 
 
+# ---------------------------------------------------------------- has the source changed since the models were written?
+
+def changed_sources():
+    """files of /repo/src that differ from tools/baseline_src.json (the tree the models were validated against).
+    Used only to escalate the search budget, never for the verdict."""
+    try:
+        base = json.load(open(os.path.join(HERE, "tools", "baseline_src.json")))["files"]
+    except Exception:
+        return ["(no baseline)"]
+    changed = []
+    cur = sorted(glob.glob(os.path.join(REPO, "src", "*.rs")) + [os.path.join(REPO, "Cargo.toml")])
+    for f in cur:
+        rel = os.path.relpath(f, REPO)
+        try:
+            h = hashlib.sha256(open(f, "rb").read()).hexdigest()
+        except OSError:
+            h = None
+        if base.get(rel) != h:
+            changed.append(rel)
+    for rel in base:
+        if not os.path.exists(os.path.join(REPO, rel)):
+            changed.append(rel + " (removed)")
+    return changed
+
+
 # ---------------------------------------------------------------- known findings
 
 def load_known():
@@ -375,9 +400,13 @@ def main():
         rel_diffs += d; rel_hits += h
         unobserved += len(r.get("diffs", [])) - len(d)
 
-    # escalate the search when the correspondence or the proof broke but no concrete failing input is known yet
+    # escalate the search when the correspondence or the proof broke but no concrete failing input is known yet,
+    # and whenever the source differs from the tree the models were validated against (look harder at changed code)
     corr_broken = bool(rel_diffs) or any(not r.get("ok", False) for r in engine_results)
-    if (corr_broken or not proof_ok) and not [h for h in rel_hits if not h.get("known_class")]:
+    changed = changed_sources()
+    escalated = False
+    if (corr_broken or not proof_ok or changed) and not [h for h in rel_hits if not h.get("known_class")]:
+        escalated = True
         for ename in P["engines"]:
             eng = importlib.import_module("engines." + ename)
             if not hasattr(eng, "run"):
@@ -395,6 +424,7 @@ def main():
             engine_results.append(r2)
             d, h = relevant(r2)
             rel_hits += h
+            rel_diffs += d
 
     def write_replay(obj):
         blob = json.dumps(obj, sort_keys=True, indent=1)
@@ -465,6 +495,8 @@ def main():
         "rule": P.get("rule", ""),
         "samples": samples[:6] if samples else ["(no correspondence cases: see explanation)"],
         "unobserved_diffs": unobserved,
+        "source_files_changed_since_baseline": changed,
+        "search_budget_used": escalated,
         "forbidden_vernacular_outside_this_property": proof.get("forbidden_elsewhere", []),
         "known_findings_seen": known_seen,
         "engines": [{"engine": r["engine"], "ok": r.get("ok", False), "error": r.get("error"),
